@@ -403,7 +403,7 @@ def main():
     def alpha(node):
         """source text of a node with local variable names replaced by v0, v1, ... in order of first appearance (so that renaming a
         local variable does not change the extracted fact); module roots, builtins and attribute names are kept"""
-        keep = {'np', 'scipy', 'FlowCal', 'None', 'True', 'False', 'float', 'int', 'len', 'str', 'list', 'range', 'isinstance', 'hasattr', 'warnings', 'six',
+        keep = {'bool', 'num_start', 'num_end', 'high', 'low', 'full_output', 'np', 'scipy', 'FlowCal', 'None', 'True', 'False', 'float', 'int', 'len', 'str', 'list', 'range', 'isinstance', 'hasattr', 'warnings', 'six',
                 'collections', 'os', 'pd', 'ExcelUIException', 'ValueError', 'data', 'channels'}
         names = {}
 
@@ -438,6 +438,12 @@ def main():
             whole = alpha(ast.Module(body=body, type_ignores=[]))
             stats_defs.append((n.name, ' ; '.join(' '.join(x.split()) for x in whole.split('\n'))))
 
+    def body_text(fn):
+        body = [st for st in fn.body if not (isinstance(st, ast.Expr) and isinstance(st.value, ast.Constant) and isinstance(st.value.value, str))]
+        whole = alpha(ast.Module(body=body, type_ignores=[]))
+        return ' ; '.join(' '.join(x.split()) for x in whole.split('\n'))
+    gate_defs = [(nm, body_text(top_func(trees['gate'], nm))) for nm in ('start_end', 'high_low')]
+
     strip = lambda xs: [x.lstrip('_') for x in xs]
     facts = {
         'sampleFields': strip(sample_fields), 'finalizeFields': strip(finalize_fields),
@@ -448,7 +454,7 @@ def main():
         'writeSites': ws, 'hashes': hashes,
         'sampleRaiseSites': sample_raises, 'beadsRaiseSites': beads_raises, 'outputSheetSpec': [[n, c] for n, c in sheets],
         'statsHeadColumns': head, 'statsPerChannelSuffixes': per,
-        'statsDefinitions': [list(t) for t in stats_defs], 'densitySelection': dens,
+        'statsDefinitions': [list(t) for t in stats_defs], 'densitySelection': dens, 'gateDefinitions': [list(t) for t in gate_defs],
         'sampleKeywords': sample_keywords, 'fileKeywords': file_keywords, 'vendorMarks': vendor_marks,
         'samplePipelineCalls': [list(t) for t in sample_calls], 'statColumnFunctions': [list(t) for t in stat_cols], 'positiveEventsRule': pos_rule,
         'summary': {'sampleFields': len(sample_fields), 'finalizeFields': len(finalize_fields),
@@ -480,6 +486,7 @@ def main():
     L.append('def fileKeywords : List String := [' + ', '.join(lstr(x) for x in file_keywords) + ']')
     L.append('def vendorMarks : List String := [' + ', '.join(lstr(x) for x in vendor_marks) + ']')
     L.append('def statsDefinitions : List (String × String) := [' + ',\n  '.join('(%s, %s)' % tuple(lstr(x) for x in t) for t in stats_defs) + ']')
+    L.append('def gateDefinitions : List (String × String) := [' + ',\n  '.join('(%s, %s)' % tuple(lstr(x) for x in t) for t in gate_defs) + ']')
     L.append('def densitySelection : List String := [' + ',\n  '.join(lstr(x) for x in dens) + ']')
     L.append('def samplePipelineCalls : List (String × String × String) := [' + ',\n  '.join('(%s, %s, %s)' % tuple(lstr(x) for x in t) for t in sample_calls) + ']')
     L.append('def statColumnFunctions : List (String × String × String) := [' + ',\n  '.join('(%s, %s, %s)' % tuple(lstr(x) for x in t) for t in stat_cols) + ']')
